@@ -111,8 +111,15 @@ InvertLaw == [][ (hist' # hist /\ hist'[Len(hist')].op = "Invert") =>
                    MatMul(st.A.m, st'.A.m) = Scal(Ident(R(st.A)), st.A.d * st'.A.d) ]_vars
 \* Kronecker inflation laws (n = 2), checked on every transition whose operation claims one
 J2 == Const(2, 2, 1)
+\* (the determinant of A (x) I_2 is det(A)^2: the law is evaluated for inversion / solve on small entries only, and
+\*  for the products on operands whose doubled sums stay within 32 bits)
+KronFits(o) == IF o.op \in {"Invert", "Solve"} THEN MaxM(st.A) <= 12 /\ MaxV(st.v) <= 12
+               ELSE IF o.op \in {"ProdNormMatMat", "ProdNormMatVec", "ProdNormMat"}
+                    THEN MaxM(st.A) <= 250 /\ MaxM(st.B) <= 250 /\ MaxV(st.v) <= 250
+               ELSE MaxM(st.A) <= 5000 /\ MaxM(st.B) <= 5000 /\ MaxV(st.v) <= 5000
 KronLaw == [][ hist' # hist =>
                  LET o == hist'[Len(hist')] IN
-                   /\ (KronPowJ(o) >= 0 => KronLawHolds(o, st, J2, KronPowJ(o)))
-                   /\ (KronPowI(o) >= 0 => KronLawHolds(o, st, Ident(2), 0)) ]_vars
+                   KronFits(o) =>
+                     /\ (KronPowJ(o) >= 0 => KronLawHolds(o, st, J2, KronPowJ(o)))
+                     /\ (KronPowI(o) >= 0 => KronLawHolds(o, st, Ident(2), 0)) ]_vars
 =============================================================================
